@@ -298,7 +298,7 @@ def p3(m):
     try:
         e = dict(os.environ)
         e.update({'PYTHONPATH': str(wt / 'src'), 'MPLBACKEND': 'Agg'})
-        r = subprocess.run([PY, '-m', 'pytest', '-q', '-p', 'no:cacheprovider', '-x', '-n', '4', '--timeout=900'], cwd=wt, env=e,
+        r = subprocess.run([PY, '-m', 'pytest', '-q', '-p', 'no:cacheprovider', '-x', '-n', '3', '--timeout=900'], cwd=wt, env=e,
                            capture_output=True, text=True)
         return m['id'], r.returncode == 0
     finally:
@@ -354,7 +354,9 @@ def main():
         save(st)
     elif cmd == 'phase3':
         todo = [byid[i] for i, s in st.items() if not s['checks'] and s.get('digest') and 'suite' not in s and i in byid]
-        with ProcessPoolExecutor(max_workers=4) as pool:
+        if '--no-plots' in sys.argv:
+            todo = [m for m in todo if not m['file'].startswith('plots/')]
+        with ProcessPoolExecutor(max_workers=5) as pool:
             for k, (mid, ok) in enumerate(pool.map(p3, todo)):
                 st[mid]['suite'] = ok
                 if k % 10 == 0:
